@@ -11,6 +11,7 @@ from __future__ import annotations
 
 import itertools
 import math
+import re
 import time
 from fractions import Fraction
 from typing import Any, Callable, List, Optional, Sequence
@@ -517,6 +518,48 @@ class SymNum:
             return NotImplemented
         return SymNum(o) % self
 
+    # bit operations on (non-negative, < 2**40) ints: shifts by a concrete amount are exact arithmetic,
+    # and/or/xor go through a 40-bit vector view of the two operands
+    def __lshift__(self, o):
+        if isinstance(o, int) and o >= 0 and self.is_int:
+            return self * (1 << o)
+        return NotImplemented
+
+    def __rshift__(self, o):
+        if isinstance(o, int) and o >= 0 and self.is_int:
+            return self // (1 << o)
+        return NotImplemented
+
+    def _bitop(self, o, f, kind=""):
+        if isinstance(o, bool) or not (isinstance(o, int) or (isinstance(o, SymNum) and o.is_int)) or not self.is_int:
+            return NotImplemented
+        a, b = self.t, (o.t if isinstance(o, SymNum) else z3.IntVal(o))
+        assume(SymBool(z3.And(a >= 0, a < 2**40, b >= 0, b < 2**40)))
+        if kind in ("or", "xor"):
+            # packing idiom (x << 8) | y: when the path condition entails the operands share no bits the
+            # result is their sum -- keeps the term linear (Int2BV terms make later queries crawl)
+            c = ctx()
+            for k in range(4, 40, 4):
+                for hi, lo in ((a, b), (b, a)):
+                    if c.solver.check(z3.Not(z3.And(lo < 2**k, hi % (2**k) == 0))) == z3.unsat:
+                        return SymNum(_simp(a + b))
+        return SymNum(_simp(z3.BV2Int(f(z3.Int2BV(a, 41), z3.Int2BV(b, 41)), False)))
+
+    def __and__(self, o):
+        return self._bitop(o, lambda x, y: x & y)
+
+    __rand__ = __and__
+
+    def __or__(self, o):
+        return self._bitop(o, lambda x, y: x | y, "or")
+
+    __ror__ = __or__
+
+    def __xor__(self, o):
+        return self._bitop(o, lambda x, y: x ^ y, "xor")
+
+    __rxor__ = __xor__
+
     def __neg__(self):
         return SymNum(_simp(-self.t))
 
@@ -705,6 +748,8 @@ class SymNum:
         t = _simp(self.t)
         if z3.is_int_value(t):
             return format(t.as_long(), spec)
+        if self.is_int and _HEX_SPEC.fullmatch(spec):
+            return make_token(self, spec)  # digit count matters to whoever reads the string (colours)
         return make_token(self)
 
 
@@ -713,13 +758,18 @@ class SymNum:
 TOK_L, TOK_R = "⟦", "⟧"
 
 
-def make_token(v: SymNum) -> str:
+_HEX_SPEC = re.compile(r"0?\d*[xX]")
+
+
+def make_token(v: SymNum, spec: str = "") -> str:
+    """A placeholder for a symbolic number inside a string.  `spec` (hex format specs only) is kept in
+    the token text -- "⟦3:02X⟧" -- so that a reader of the string can account for the digit count."""
     c = ctx()
-    key = v.t.get_id()
+    key = (v.t.get_id(), spec) if spec else v.t.get_id()
     for tok, (kid, _) in c.tokens.items():
         if kid == key:
             return tok
-    tok = f"{TOK_L}{len(c.tokens)}{TOK_R}"
+    tok = f"{TOK_L}{len(c.tokens)}{':' + spec if spec else ''}{TOK_R}"
     c.tokens[tok] = (key, v)
     return tok
 
